@@ -62,25 +62,27 @@ def bitStringCanonical (c : Bytes) : Bool :=
 def isDigits (bs : Bytes) : Bool := bs.all (fun b => 48 ≤ b && b ≤ 57)
 def num (bs : Bytes) : Nat := bs.foldl (fun a b => a * 10 + (b.toNat - 48)) 0
 
+/-- the common tail `MMDDHHMMSSZ` of both time forms, for a known year -/
+def decTimeTail (y : Int) (rest : Bytes) : Option Int :=
+  match rest with
+  | [m1, m2, d1, d2, h1, h2, i1, i2, s1, s2, 90] =>
+    if isDigits [m1, m2, d1, d2, h1, h2, i1, i2, s1, s2] then
+      let (mo, d, h, mi, s) := (num [m1, m2], num [d1, d2], num [h1, h2], num [i1, i2], num [s1, s2])
+      if Calendar.validDate y mo d && h < 24 && mi < 60 && s < 60 then
+        some (Calendar.goDate y mo d h mi s 0)
+      else none
+    else none
+  | _ => none
+
 /-- UTCTime `YYMMDDHHMMSSZ` / GeneralizedTime `YYYYMMDDHHMMSSZ` → unix seconds; only the DER forms -/
 def decTime (tag : UInt8) (c : Bytes) : Option Int :=
-  let go (y : Int) (rest : Bytes) : Option Int :=
-    match rest with
-    | [m1, m2, d1, d2, h1, h2, i1, i2, s1, s2, 90] =>
-      if isDigits [m1, m2, d1, d2, h1, h2, i1, i2, s1, s2] then
-        let (mo, d, h, mi, s) := (num [m1, m2], num [d1, d2], num [h1, h2], num [i1, i2], num [s1, s2])
-        if Calendar.validDate y mo d && h < 24 && mi < 60 && s < 60 then
-          some (Calendar.goDate y mo d h mi s 0)
-        else none
-      else none
-    | _ => none
   if tag = 0x17 then
     match c with
-    | y1 :: y2 :: rest => if isDigits [y1, y2] then (let yy := num [y1, y2]; go (if yy ≥ 50 then 1900 + yy else 2000 + yy) rest) else none
+    | y1 :: y2 :: rest => if isDigits [y1, y2] then (let yy := num [y1, y2]; decTimeTail (if yy ≥ 50 then 1900 + yy else 2000 + yy) rest) else none
     | _ => none
   else if tag = 0x18 then
     match c with
-    | y1 :: y2 :: y3 :: y4 :: rest => if isDigits [y1, y2, y3, y4] then go (num [y1, y2, y3, y4]) rest else none
+    | y1 :: y2 :: y3 :: y4 :: rest => if isDigits [y1, y2, y3, y4] then decTimeTail (num [y1, y2, y3, y4]) rest else none
     | _ => none
   else none
 
